@@ -8,3 +8,6 @@ import NakenVerif.Props.C12
 import NakenVerif.Props.C10
 import NakenVerif.Props.C11
 import NakenVerif.Props.C02
+import NakenVerif.Props.C14
+import NakenVerif.Props.C15
+import NakenVerif.Props.C05
